@@ -12,7 +12,8 @@ CONSTANTS NBibs,       \* number of athletes (bibs "A".."D", alphabetical)
           Mode,        \* "all": every call; "ok": accepted calls only;
                        \* "orderly": accepted calls of a well-formed competition (C03's quantifier)
           EmitEvery,   \* emit the witness log of every EmitEvery-th distinct state (0 = never)
-          StartLogs    \* set of logs; the initial states are the competitions they build
+          StartLogs,   \* set of logs; the initial states are the competitions they build
+          WithDQ       \* TRUE: athletes may also be registered as DQ / DNS entries (extension XDQ)
 
 VARIABLES hj, call, bad, taint   \* taint: a known finding (KF_*) has occurred in this history
 
@@ -20,6 +21,7 @@ BibSeq == SubSeq(AllBibs, 1, NBibs)
 BibS == {BibSeq[i] : i \in DOMAIN BibSeq}
 Calls == {Entry("add", b, 0) : b \in BibS} \cup {Entry("bar", "", h) : h \in BarValues}
          \cup {Entry(k, b, 0) : k \in Letters, b \in BibS}
+         \cup (IF WithDQ THEN {Entry("addq", b, 0) : b \in BibS} ELSE {})
 
 \* "orderly": everybody registers first, the bar moves only when the round is complete, and
 \* nobody passes in a jump-off - the histories C03 quantifies over.
@@ -67,6 +69,8 @@ WonThenFinished == ~(hj.state = "finished" /\ NRegR(hj) > 0 /\ Cardinality(TiedF
 \* witness logs for replay into the real code
 EmitLog == (Terminal(hj) \/ TLCGet("level") >= MaxDepth - 1 \/ Len(hj.heights) >= MaxH) =>
               PrintT("@@" \o ToJson([log |-> hj.log]))
+\* extension XDQ: witnesses of states in which a property clause fails (never an error here: the run is informational)
+EmitBad == (bad # {} /\ TLCGet("distinct") % 7 = 0) => PrintT("@@" \o ToJson([log |-> hj.log, bad |-> bad]))
 \* witnesses of the known finding, so that it is reproduced on the real code in every run
 EmitTaint == (taint /\ TLCGet("distinct") % 50 = 0) => PrintT("@@" \o ToJson([log |-> hj.log, taint |-> TRUE]))
 \* exhaustive mode: one (shortest) witness per distinct abstract state, sampled 1 in EmitEvery
